@@ -46,6 +46,7 @@ class Schedule:
         self.zeroed = set(spec.get("zeroed", ()))        # keys forced to 0
         self.starved = spec.get("starved")               # sid or None
         self.choices = spec.get("choices")               # optional explicit choice list
+        self.split = bool(spec.get("split"))             # remote transports: split frames into segments
         self.used: Dict[str, float] = {}
 
     def spec(self) -> Dict[str, Any]:
@@ -58,6 +59,8 @@ class Schedule:
             d["starved"] = self.starved
         if self.choices is not None:
             d["choices"] = list(self.choices)
+        if self.split:
+            d["split"] = True
         return d
 
     def delay(self, sid: str, ordinal: int, phase: str) -> Optional[float]:
